@@ -30,6 +30,6 @@ def run(tier, t0):
     e1.obs = [o for o in e1.obs if o.construct.split('#')[0] in ('append', 'set', 'export_symbol', 'lookup', 'scope_start')]
     e1.floor = 5
     results = [sym.pool_walkers(prog, 8), sym.find_order(prog), sym.defnames(prog), sym.scope_width(prog), e1,
-               sym.find_exhaustive(prog, lambda f: f.file in ("core/Symbols.cpp", "core/Macros.cpp"), 2), elf.layout(prog), elf.strtab_pair(prog),
+               sym.find_exhaustive(prog, lambda f: f.file in ("core/Symbols.cpp", "core/Macros.cpp"), 2), elf.layout(prog), elf.strtab_pair(prog), elf.patch_width(prog),
                err.err2(prog, lambda f: f.file in ('core/Symbols.cpp',), table, floor=3)]
     return report.finish('C11', tier, results, EXPLANATION, [], common.TRUSTED, t0)
